@@ -40,9 +40,19 @@ def views_tie(chk):
         car.Nr = type(car.Nr)(*Nr)
         car.Mr = type(car.Mr)(*Mr)
         car.tout = np.array([9000.0] * nrow)
-        got = dict(M=[float(x) for x in car.M], N=[float(x) for x in car.N], m=[float(x) for x in car.m],
-                   types=[str(x) for x in car.types], nms=int(car.nms), nmr=int(car.nmr), nbw=len(car.bin_widths))
         case = dict(carrier=k % len(cars), rows=nrow, Ns_last=[float(x) for x in Ns[-1]], Nr_last=[float(x) for x in np.concatenate([a[-1] for a in Nr])])
+        got, broken = {}, None
+        for nm_, fn_ in (("M", lambda: [float(x) for x in car.M]), ("N", lambda: [float(x) for x in car.N]), ("m", lambda: [float(x) for x in car.m]),
+                         ("types", lambda: [str(x) for x in car.types]), ("nms", lambda: int(car.nms)), ("nmr", lambda: int(car.nmr)),
+                         ("nbw", lambda: len(car.bin_widths))):
+            try:
+                got[nm_] = fn_()
+            except Exception as e:  # noqa
+                broken = (nm_, type(e).__name__, str(e)[:100])
+                got[nm_] = [] if nm_ in ("M", "N", "m", "types") else -1
+        if broken:
+            chk.fail("the summary views have consistent lengths (nms + nmr)", case, dict(view=broken[0], raised=broken[1], msg=broken[2],
+                                                                                       lengths={k2: (v if isinstance(v, int) else len(v)) for k2, v in got.items()}))
         chk.note_distinct(case)
         nrl = np.concatenate([a[-1] for a in Nr])
         mrl = np.concatenate([a[-1] for a in Mr])
